@@ -121,7 +121,7 @@ func consume(ctx context.Context, x *harness.X, sd *side, ch chanAPI) {
 	}
 }
 
-func body(kind string, pipeCap int, twoClientSenders, slowConsumer bool) func(x *harness.X) {
+func body(kind string, pipeCap int, twoClientSenders, slowConsumer, idleFirst bool) func(x *harness.X) {
 	return func(x *harness.X) {
 		lib.Reset()
 		s := &st{cli: side{name: "client"}, srv: side{name: "server"}}
@@ -140,6 +140,12 @@ func body(kind string, pipeCap int, twoClientSenders, slowConsumer bool) func(x 
 		}
 		ctx, cancel := context.WithCancel(context.Background())
 		defer cancel()
+		if idleFirst {
+			// a session that has been open and idle for longer than any deadline used while
+			// establishing it
+			time.Sleep(40 * time.Second)
+			x.Obs("session idle for 40s")
+		}
 		rt.BeginExplore()
 		go consume(ctx, x, &s.cli, cc)
 		go func() {
@@ -335,16 +341,16 @@ func dupFinal(x *harness.X, res *rt.Result) {
 }
 
 func main() {
-	base := rt.Options{NoExplore: true, Horizon: 200 * time.Second, MaxSteps: 80000, BoundAll: true, NoTimerDeviation: true}
+	base := rt.Options{NoExplore: true, Horizon: 200 * time.Second, MaxSteps: 80000, SpinLimit: 20000, BoundAll: true, NoTimerDeviation: true}
 	stall := base
 	stall.NoTimerDeviation = false
 	mk := func(name, kind string, cap int, two bool, opt rt.Options, q, t int) harness.Scenario {
-		return harness.Scenario{Name: name, Opt: opt, Quick: q, Thorough: t, Prune: true, Body: body(kind, cap, two, strings.Contains(name, "slow-consumer")), Final: final}
+		return harness.Scenario{Name: name, Opt: opt, Quick: q, Thorough: t, Prune: true, Body: body(kind, cap, two, strings.Contains(name, "slow-consumer"), strings.Contains(name, "idle")), Final: final}
 	}
 	harness.Main(harness.Check{
 		Property: "C04",
 		Level:    "model_checking",
-		Rule:     "workloads: client sender with 2 envelopes and server sender with 1+1 envelopes, kinds from {small message, message larger than the pipe, notification, request, unmatched response} (125 combinations) x channel buffer {0,1} x transport queue {0,1} (in-process) / pipe capacity {64B, 64KiB} (TCP, WebSocket), optional second client sender; one draining consumer per side; all schedules within the deviation bound (delay bounding); the stall scenarios additionally let an I/O deadline fire early (write stall); a scenario with messages repeating an id; oracle: delivered multiset == successfully sent multiset, equal content, per-(sender,kind) order; distinct outcome = distinct observation log",
+		Rule:     "workloads: client sender with 2 envelopes and server sender with 1+1 envelopes, kinds from {small message, message larger than the pipe, notification, request, unmatched response} (125 combinations) x channel buffer {0,1} x transport queue {0,1} (in-process) / pipe capacity {64B, 64KiB} (TCP, WebSocket), optional second client sender; one draining consumer per side; all schedules within the deviation bound (delay bounding); the stall scenarios additionally let an I/O deadline fire early (write stall); a scenario with messages repeating an id; scenarios whose session has been idle for 40 s before the traffic starts; oracle: delivered multiset == successfully sent multiset, equal content, per-(sender,kind) order; distinct outcome = distinct observation log",
 		Assume:   []string{"WebSocket: the real websocketTransport over gorilla connections opened by a real handshake on a virtual pipe (the listener's HTTP server and wss are not part of it); TLS is covered by C09/C12", "payload sizes up to 120 bytes against a 64-byte pipe stand for 'larger than the socket buffer'"},
 		Scenarios: []harness.Scenario{
 			mk("inproc", "inproc", 0, false, base, 1, 2),
@@ -353,6 +359,9 @@ func main() {
 			mk("tcp/cap64B/stalls", "tcp", 64, false, stall, 1, 1),
 			mk("ws/cap64KiB", "ws", 64<<10, false, base, 1, 1),
 			mk("ws/cap64B", "ws", 64, false, base, 1, 1),
+			mk("ws/cap64KiB/idle-40s-first", "ws", 64<<10, false, base, 0, 1),
+			mk("tcp/cap64KiB/idle-40s-first", "tcp", 64<<10, false, base, 0, 1),
+			mk("inproc/idle-40s-first", "inproc", 0, false, base, 0, 1),
 			mk("ws/cap64B/slow-consumer", "ws", 64, false, base, 0, 1),
 			mk("tcp/cap64B/slow-consumer", "tcp", 64, false, base, 0, 1),
 			mk("inproc/slow-consumer", "inproc", 0, false, base, 0, 1),
